@@ -95,6 +95,29 @@ int main(int argc, char** argv) {
     std::printf("%s\n", t.dump().c_str());
     return 0;
   }
+  if (a.has("sw")) {
+    // sync_wait mode: each behaviour is "start with every leaf completing inline"; prints channel/payload/callables
+    std::ifstream in(a.str("behaviours")); FILE* out = std::fopen(a.str("out").c_str(), "a");
+    std::string line; long x = -1, from = a.num("from", 0), to = a.num("to", 1L << 40), ran = 0;
+    while (std::getline(in, line)) {
+      if (line.empty()) continue;
+      ++x; if (x < from || x >= to) continue;
+      json beh = json::parse(line);
+      auto it = Registry::sw().find(beh["cfg"]["shape"].get<int>());
+      if (it == Registry::sw().end()) continue;
+      std::fprintf(stderr, "@@X %ld\n", x);
+      Track::reset();
+      json rec;
+      { World w; configure(w, beh); SwResult r = it->second(w); g_w = nullptr;
+        json fn = json::array(); for (auto& f : w.fn) fn.push_back({f.q, f.p});
+        rec = {{"x", x}, {"ch", std::string(1, r.ch)}, {"p", r.p}, {"fn", fn}}; }
+      rec["live"] = Track::live.size(); rec["bad"] = Track::bad;
+      std::fprintf(out, "%s\n", rec.dump().c_str()); ++ran;
+    }
+    std::fclose(out);
+    std::printf("%s\n", json({{"ran", ran}}).dump().c_str());
+    return 0;
+  }
   if (a.has("log")) vrt::log_open(a.str("log").c_str());
   std::ifstream in(a.str("behaviours"));
   FILE* out = std::fopen(a.str("out").c_str(), "a");
